@@ -466,4 +466,17 @@ def respell_string(tok, r):
             out.append("\\" + ch)          # \q-style identity escape
         else:
             out.append(ch)
+    # the digits of a hex escape may be written in either case (\x4a, \x4A, \xE9), in both quote styles
+    out = [hexcase(r, o) for o in out]
     return q + "".join(out) + q
+
+
+def hexcase(r, esc):
+    if len(esc) == 4 and esc.startswith("\\x") and esc[2:].lower() != esc[2:].upper():
+        k = r.random()
+        if k < 0.4:
+            return esc
+        if k < 0.7:
+            return "\\x" + esc[2:].upper()
+        return "\\x" + "".join(c.upper() if r.random() < 0.5 else c.lower() for c in esc[2:])
+    return esc
